@@ -1,5 +1,502 @@
-"""translator targets (registered on import)"""
-from translator.translate import *  # noqa: F401,F403
-from translator.translate import target, load, find_func, header, Sym, TranslationError, REL, int_expr  # noqa: F401
-import ast  # noqa: F401
+"""Tie A targets: decision logic (validators, solver policy, sign rule, guards)."""
+from __future__ import annotations
 
+import ast
+
+from translator.translate import target, load, find_func, header, Sym, TranslationError, REL
+
+MICRO = 1000000
+ERR = {"TypeError", "ValueError", "KeyError", "IndexError", "NotImplementedError", "RuntimeError"}
+
+
+# ------------------------------------------------------------------------------------- conditions over PyVal
+class Cond:
+    """translate a Python condition over ONE PyVal-typed name (`var`) and integer-typed names (`ints`) to a Lean Bool"""
+
+    def __init__(self, var=None, vkind=None, ints=(), strs=()):
+        self.var, self.vkind, self.ints, self.strs = var, vkind, dict(ints), dict(strs)
+
+    def num(self, e):
+        """numeric term; returns (lean, kind) with kind in {'int','micro'}"""
+        if isinstance(e, ast.Constant) and isinstance(e.value, bool):
+            raise TranslationError("bool constant in numeric context")
+        if isinstance(e, ast.Constant) and isinstance(e.value, int):
+            return f"({e.value} : Int)", "int"
+        if isinstance(e, ast.Constant) and isinstance(e.value, float):
+            q = round(e.value * MICRO)
+            if abs(q / MICRO - e.value) > 1e-12:
+                raise TranslationError(f"float literal {e.value} not representable in micro units")
+            return f"({q} : Int)", "micro"
+        if isinstance(e, ast.Name) and e.id == self.var:
+            if self.vkind == "int":
+                return "v.asInt", "int"
+            if self.vkind == "float":
+                return "q", "micro"
+            raise TranslationError(f"numeric use of {e.id} outside an int/float case")
+        if isinstance(e, ast.Name) and e.id in self.ints:
+            return self.ints[e.id], "int"
+        if isinstance(e, ast.Attribute) and isinstance(e.value, ast.Name) and e.value.id == "self" and e.attr in self.ints:
+            return self.ints[e.attr], "int"
+        if isinstance(e, ast.Call) and isinstance(e.func, ast.Name) and e.func.id == "len" and len(e.args) == 1:
+            a = e.args[0]
+            if isinstance(a, ast.Name) and ("len_" + a.id) in self.ints:
+                return self.ints["len_" + a.id], "int"
+        if isinstance(e, ast.BinOp) and type(e.op) in (ast.Add, ast.Sub, ast.Mult):
+            (l, lk), (r, rk) = self.num(e.left), self.num(e.right)
+            if lk != rk or (lk == "micro" and isinstance(e.op, ast.Mult)):
+                raise TranslationError("mixed int/float arithmetic in a decision")
+            sym = {ast.Add: "+", ast.Sub: "-", ast.Mult: "*"}[type(e.op)]
+            return f"({l} {sym} {r})", lk
+        raise TranslationError("untranslatable numeric term: " + ast.unparse(e)[:80])
+
+    def unify(self, a, b):
+        (l, lk), (r, rk) = a, b
+        if lk == rk:
+            return l, r
+        if lk == "int":
+            return f"({l} * {MICRO})", r
+        return l, f"({r} * {MICRO})"
+
+    def b(self, e):
+        if isinstance(e, ast.BoolOp):
+            op = " && " if isinstance(e.op, ast.And) else " || "
+            return "(" + op.join(self.b(x) for x in e.values) + ")"
+        if isinstance(e, ast.UnaryOp) and isinstance(e.op, ast.Not):
+            return f"(!{self.b(e.operand)})"
+        if isinstance(e, ast.Compare):
+            parts = []
+            left = e.left
+            for op, right in zip(e.ops, e.comparators):
+                parts.append(self.cmp(left, op, right))
+                left = right
+            return "(" + " && ".join(parts) + ")"
+        if isinstance(e, ast.Call) and isinstance(e.func, ast.Name) and e.func.id == "isinstance":
+            return self.isinst(e.args[0], e.args[1])
+        if isinstance(e, ast.Call) and isinstance(e.func, ast.Name) and e.func.id == "all" and isinstance(e.args[0], ast.GeneratorExp):
+            g = e.args[0]
+            it = g.generators[0]
+            if not (isinstance(it.iter, ast.Name) and it.iter.id in (self.var,) and isinstance(it.target, ast.Name)):
+                raise TranslationError("unsupported all(...) generator")
+            inner = Cond(var=it.target.id, vkind=None)
+            body = inner.b(g.elt).replace("v.", "x.").replace("(v)", "(x)")
+            return f"(v.items.all (fun x => {body}))"
+        if isinstance(e, ast.Name) and e.id in self.ints:
+            return f"({self.ints[e.id]} != 0)"
+        raise TranslationError("untranslatable condition: " + ast.unparse(e)[:80])
+
+    def isinst(self, obj, cls):
+        if not (isinstance(obj, ast.Name) and obj.id == self.var):
+            raise TranslationError("isinstance on an unexpected object " + ast.unparse(obj))
+        names = [c for c in (cls.elts if isinstance(cls, ast.Tuple) else [cls])]
+        outs = []
+        for c in names:
+            s = ast.unparse(c)
+            m = {"str": "v.isStr", "int": "v.isInt", "float": "v.isFloat", "tuple": "v.isTuple", "list": "v.isList",
+                 "xr.DataArray": "v.isXarray", "xr.Dataset": "v.isXarray"}.get(s)
+            if m is None:
+                raise TranslationError("isinstance with unknown class " + s)
+            outs.append(m)
+        outs = list(dict.fromkeys(outs))
+        return "(" + " || ".join(outs) + ")"
+
+    def cmp(self, left, op, right):
+        if isinstance(op, (ast.In, ast.NotIn)):
+            if not (isinstance(left, ast.Name) and isinstance(right, (ast.List, ast.Tuple))):
+                raise TranslationError("unsupported membership test")
+            vals = [x.value for x in right.elts if isinstance(x, ast.Constant) and isinstance(x.value, str)]
+            if len(vals) != len(right.elts):
+                raise TranslationError("membership in a non-literal list")
+            lst = "[" + ", ".join('"%s"' % v for v in vals) + "]"
+            name = "s" if left.id == self.var else self.strs.get(left.id)
+            if name is None:
+                raise TranslationError("membership test on non-string name")
+            r = f"({lst}.contains {name})"
+            return r if isinstance(op, ast.In) else f"(!{r})"
+        if isinstance(op, (ast.Is, ast.IsNot)):
+            raise TranslationError("identity comparison (`is`) between values: " + ast.unparse(left) + " is " + ast.unparse(right))
+        # string equality
+        if isinstance(right, ast.Constant) and isinstance(right.value, str) and isinstance(left, ast.Name):
+            name = "s" if left.id == self.var else self.strs.get(left.id)
+            if name is None:
+                raise TranslationError("string comparison on non-string name")
+            r = f'({name} == "{right.value}")'
+            return r if isinstance(op, ast.Eq) else f"(!{r})"
+        l, r = self.unify(self.num(left), self.num(right))
+        rel = {ast.Lt: "<", ast.LtE: "≤", ast.Gt: ">", ast.GtE: "≥", ast.Eq: "==", ast.NotEq: "!="}[type(op)]
+        if rel in ("==", "!="):
+            return f"({l} {rel} {r})"
+        return f"(decide ({l} {rel} {r}))"
+
+
+def raise_of(stmt):
+    if isinstance(stmt, ast.Raise) and isinstance(stmt.exc, ast.Call) and isinstance(stmt.exc.func, ast.Name) and stmt.exc.func.id in ERR:
+        return stmt.exc.func.id
+    return None
+
+
+def guards(body, cond: Cond, tail="pure ()"):
+    """a sequence of `if c: raise E` statements (anything else must not be reachable for validators)"""
+    out = tail
+    for st in reversed(body):
+        if isinstance(st, ast.Pass) or (isinstance(st, ast.Expr) and isinstance(st.value, ast.Constant)):
+            continue
+        if isinstance(st, ast.If) and len(st.body) == 1 and raise_of(st.body[0]) and not st.orelse:
+            out = f"if {cond.b(st.test)} then Py.raise .{raise_of(st.body[0])} else {out}"
+            continue
+        if raise_of(st):
+            out = f"Py.raise .{raise_of(st)}"
+            continue
+        raise TranslationError("unsupported statement in validator: " + ast.unparse(st)[:80])
+    return out
+
+
+@target("sanityCheckNModes", "Decide", ["C15", "C17"])
+def _sanity():
+    path, qual = "utils/sanity_checks.py", "sanity_check_n_modes"
+    src, tree = load(path)
+    fn = find_func(tree, qual)
+    m = [s for s in fn.body if isinstance(s, ast.Match)]
+    if len(m) != 1 or not (isinstance(m[0].subject, ast.Name)):
+        raise TranslationError("expected one match statement on the argument")
+    var = m[0].subject.id
+    arms = {}
+    default = None
+    for c in m[0].cases:
+        p = c.pattern
+        if isinstance(p, ast.MatchClass) and isinstance(p.cls, ast.Name) and not p.patterns and not p.kwd_patterns:
+            arms[p.cls.id] = c.body
+        elif isinstance(p, ast.MatchAs) and p.pattern is None:
+            default = c.body
+        else:
+            raise TranslationError("unsupported match pattern " + ast.unparse(p))
+    if default is None:
+        raise TranslationError("no default case")
+    order = [c.pattern.cls.id for c in m[0].cases if isinstance(c.pattern, ast.MatchClass)]
+    lines = [f"/-- {header(path, qual, src, fn)}; case order {order} (a Python bool matches `int()`) -/",
+             "def sanityCheckNModes (v : Py.PyVal) : Py.Res Unit :="]
+    # emulate first-match semantics in source order
+    expr = guards(default, Cond(var=var))
+    for cls in reversed(order):
+        if cls == "int":
+            test, body = "v.isInt", guards(arms[cls], Cond(var=var, vkind="int"))
+        elif cls == "float":
+            test, body = "v.isFloat", "(match v with | .float q => " + guards(arms[cls], Cond(var=var, vkind="float")) + " | _ => pure ())"
+        elif cls == "str":
+            test, body = "v.isStr", "(match v with | .str s => " + guards(arms[cls], Cond(var=var, vkind="str")) + " | _ => pure ())"
+        elif cls == "bool":
+            test, body = "(match v with | .bool _ => true | _ => false)", guards(arms[cls], Cond(var=var, vkind="int"))
+        else:
+            raise TranslationError("unsupported class pattern " + cls)
+        expr = f"if {test} then {body}\n  else {expr}"
+    lines.append("  " + expr)
+    return "\n".join(lines) + "\n"
+
+
+@target("validateInputType", "Decide", ["C17"])
+def _validate_input():
+    path, qual = "utils/sanity_checks.py", "validate_input_type"
+    src, tree = load(path)
+    fn = find_func(tree, qual)
+    (arg,) = [a.arg for a in fn.args.args]
+    ifs = [s for s in fn.body if isinstance(s, ast.If)]
+    if len(ifs) != 1:
+        raise TranslationError("expected a single if/elif/else chain")
+
+    def chain(node):
+        c = Cond(var=arg)
+        test = c.b(node.test)
+        body = guards(node.body, c)
+        if len(node.orelse) == 1 and isinstance(node.orelse[0], ast.If):
+            rest = chain(node.orelse[0])
+        else:
+            rest = guards(node.orelse, c)
+        return f"if {test} then ({body})\n  else {rest}"
+
+    return (f"/-- {header(path, qual, src, fn)} -/\ndef validateInputType (v : Py.PyVal) : Py.Res Unit :=\n  " + chain(ifs[0]) + "\n")
+
+
+@target("convertToDimType", "Decide", ["C17"])
+def _convert_dim():
+    path, qual = "utils/sanity_checks.py", "convert_to_dim_type"
+    src, tree = load(path)
+    fn = find_func(tree, qual)
+    (arg,) = [a.arg for a in fn.args.args]
+    c = Cond(var=arg)
+    pre = [s for s in fn.body if isinstance(s, ast.If) and raise_of(s.body[0])]
+    ret = [s for s in fn.body if isinstance(s, ast.If) and not raise_of(s.body[0])]
+    if len(ret) != 1:
+        raise TranslationError("expected one returning if/elif/else chain")
+
+    def rchain(node):
+        def val(stmts):
+            if len(stmts) == 1 and isinstance(stmts[0], ast.Return):
+                r = ast.unparse(stmts[0].value)
+                if r == arg:
+                    return "pure v"
+                if r == f"tuple({arg})":
+                    return "pure (.tuple v.items)"
+                if r == f"({arg},)":
+                    return "pure (.tuple [v])"
+            raise TranslationError("unsupported return " + ast.unparse(stmts[0])[:60])
+
+        test = c.b(node.test)
+        if len(node.orelse) == 1 and isinstance(node.orelse[0], ast.If):
+            rest = rchain(node.orelse[0])
+        else:
+            rest = val(node.orelse)
+        return f"if {test} then {val(node.body)}\n  else {rest}"
+
+    body = rchain(ret[0])
+    expr = guards(pre, c, tail="(" + body + ")")
+    return f"/-- {header(path, qual, src, fn)} -/\ndef convertToDimType (v : Py.PyVal) : Py.Res Py.PyVal :=\n  {expr}\n"
+
+
+# ------------------------------------------------------------------------------------- solver policy
+def _policy(path, qual, suffix, extra_small_and=None):
+    src, tree = load(path)
+    fn = find_func(tree, qual)
+    m = [s for s in ast.walk(fn) if isinstance(s, ast.Match) and ast.unparse(s.subject) == "self.solver"]
+    if len(m) != 1:
+        raise TranslationError("solver `match` not found")
+    sym = Sym(fn)
+    ints = {"n_modes_precompute": "nPre", "rank": "rank", "is_small_data": "(if small then 1 else 0)", "use_dask": "(if dask then 1 else 0)",
+            "has_many_modes": None}
+    arms = []
+    default = None
+    for c in m[0].cases:
+        p = c.pattern
+        if isinstance(p, ast.MatchValue) and isinstance(p.value, ast.Constant):
+            key = p.value.value
+            asg = [s for s in c.body if isinstance(s, ast.Assign) and ast.unparse(s.targets[0]) == "use_exact"]
+            if not asg:
+                raise TranslationError(f"case {key!r} does not assign use_exact")
+            v = asg[-1].value
+            # local helper names defined inside the case (has_many_modes)
+            local = {ast.unparse(s.targets[0]): s.value for s in c.body if isinstance(s, ast.Assign)}
+            arms.append((key, _bool_expr(v, local)))
+        elif isinstance(p, ast.MatchAs) and p.pattern is None:
+            default = raise_of(c.body[0])
+    if default is None:
+        raise TranslationError("unknown solver is not refused")
+    expr = f"Py.raise .{default}"
+    for key, be in reversed(arms):
+        expr = f'if solver == "{key}" then pure {be}\n  else {expr}'
+    # how the pre-computed number of modes and the rank check are derived
+    return (f"/-- {header(path, qual, src, fn)}: which solver family is used (true = exact) -/\n"
+            f"def useExact{suffix} (solver : String) (small dask : Bool) (nPre rank : Int) : Py.Res Bool :=\n  {expr}\n")
+
+
+def _bool_expr(e, local):
+    """boolean expression over small/dask flags and integer comparisons; `True if c else False` is c"""
+    if isinstance(e, ast.IfExp) and isinstance(e.body, ast.Constant) and e.body.value is True and isinstance(e.orelse, ast.Constant) and e.orelse.value is False:
+        return _bool_expr(e.test, local)
+    if isinstance(e, ast.Constant) and isinstance(e.value, bool):
+        return "true" if e.value else "false"
+    if isinstance(e, ast.BoolOp):
+        op = " && " if isinstance(e.op, ast.And) else " || "
+        return "(" + op.join(_bool_expr(x, local) for x in e.values) + ")"
+    if isinstance(e, ast.UnaryOp) and isinstance(e.op, ast.Not):
+        return "(!" + _bool_expr(e.operand, local) + ")"
+    if isinstance(e, ast.Name):
+        if e.id == "is_small_data":
+            return "small"
+        if e.id == "use_dask":
+            return "dask"
+        if e.id in local:
+            return _bool_expr(local[e.id], local)
+        raise TranslationError("unknown flag " + e.id)
+    if isinstance(e, ast.Compare) and len(e.ops) == 1:
+        l, r = _int_term(e.left), _int_term(e.comparators[0])
+        rel = {ast.Lt: "<", ast.LtE: "≤", ast.Gt: ">", ast.GtE: "≥"}[type(e.ops[0])]
+        return f"(decide ({l} {rel} {r}))"
+    raise TranslationError("untranslatable policy expression " + ast.unparse(e)[:80])
+
+
+def _int_term(e):
+    s = ast.unparse(e)
+    if s in ("self.n_modes_precompute", "n_modes_precompute"):
+        return "nPre"
+    if s == "rank":
+        return "rank"
+    # int(0.8 * rank): floor of a decimal fraction of a non-negative integer
+    if isinstance(e, ast.Call) and isinstance(e.func, ast.Name) and e.func.id == "int" and isinstance(e.args[0], ast.BinOp) and isinstance(e.args[0].op, ast.Mult):
+        a, b = e.args[0].left, e.args[0].right
+        if isinstance(b, ast.Constant):
+            a, b = b, a
+        if isinstance(a, ast.Constant) and isinstance(a.value, float) and ast.unparse(b) == "rank":
+            num = round(a.value * 1000)
+            if abs(num / 1000 - a.value) > 1e-12:
+                raise TranslationError("fraction not a multiple of 1/1000")
+            # validate the integer model of `int(c * rank)` against Python's float arithmetic
+            for r in range(0, 20000):
+                if int(a.value * r) != (num * r) // 1000:
+                    raise TranslationError(f"int({a.value}*rank) differs from floor({num}*rank/1000) at rank={r}")
+            return f"(({num} * rank) / 1000)"
+    if isinstance(e, ast.Constant) and isinstance(e.value, int):
+        return f"({e.value} : Int)"
+    raise TranslationError("untranslatable integer term " + s[:60])
+
+
+@target("useExactDecomposer", "Decide", ["C15", "C17"])
+def _p1():
+    return _policy("linalg/decomposer.py", "Decomposer.fit", "Decomposer")
+
+
+@target("useExactSVD", "Decide", ["C15", "C17"])
+def _p2():
+    return _policy("linalg/_numpy/_svd.py", "_SVD.fit_transform", "SVD")
+
+
+@target("rankCheckDecomposer", "Decide", ["C17"])
+def _rank_check():
+    path, qual = "linalg/decomposer.py", "Decomposer.fit"
+    src, tree = load(path)
+    fn = find_func(tree, qual)
+    ifs = [s for s in fn.body if isinstance(s, ast.If) and "n_modes_precompute" in ast.unparse(s.test) and "rank" in ast.unparse(s.test) and raise_of(s.body[0])]
+    if len(ifs) != 1:
+        raise TranslationError("rank check not found")
+    t = ifs[0].test
+    if not (isinstance(t, ast.Compare) and len(t.ops) == 1):
+        raise TranslationError("unexpected rank test")
+    l, r = _int_term(t.left), _int_term(t.comparators[0])
+    rel = {ast.Lt: "<", ast.LtE: "≤", ast.Gt: ">", ast.GtE: "≥"}[type(t.ops[0])]
+    return (f"/-- {header(path, qual, src, fn)}: `if {ast.unparse(t)}: raise {raise_of(ifs[0].body[0])}` -/\n"
+            f"def rankCheckDecomposer (nPre rank : Int) : Py.Res Unit :=\n  if decide ({l} {rel} {r}) then Py.raise .{raise_of(ifs[0].body[0])} else pure ()\n")
+
+
+# ------------------------------------------------------------------------------------- sign rule
+@target("signRuleNumpy", "Decide", ["C15", "C07", "C11"])
+def _sign_np():
+    path, qual = "linalg/_numpy/_svd.py", "get_deterministic_sign_multiplier"
+    src, tree = load(path)
+    fn = find_func(tree, qual)
+    sym = Sym(fn)
+    if "sign_multiplier" not in sym.defs:
+        raise TranslationError("sign_multiplier not assigned")
+    e = sym.resolve(ast.Name("sign_multiplier"), stop={"max_vals", "min_vals"})
+    if not (isinstance(e, ast.Call) and ast.unparse(e.func) == "np.where" and len(e.args) == 3):
+        raise TranslationError("expected np.where(cond, a, b)")
+    c, a, b = e.args
+    mx = ast.unparse(sym.defs.get("max_vals", ast.Name("?")))
+    mn = ast.unparse(sym.defs.get("min_vals", ast.Name("?")))
+    if not (mx.startswith("np.max(data") and mn.startswith("np.min(data")):
+        raise TranslationError("max_vals/min_vals are not np.max/np.min of the data")
+    return (f"/-- {header(path, qual, src, fn)}: sign multiplier from the column maximum `mx` and minimum `mn` -/\n"
+            f"def signRuleNumpy (mx mn : Int) : Int :=\n  if {_sign_cond(c)} then {_const_int(a)} else {_const_int(b)}\n")
+
+
+def _const_int(e):
+    if isinstance(e, ast.Constant) and isinstance(e.value, int):
+        return f"({e.value} : Int)"
+    if isinstance(e, ast.UnaryOp) and isinstance(e.op, ast.USub) and isinstance(e.operand, ast.Constant):
+        return f"(-{e.operand.value} : Int)"
+    raise TranslationError("expected an integer literal, got " + ast.unparse(e))
+
+
+def _sign_term(e):
+    s = ast.unparse(e)
+    if s == "max_vals":
+        return "mx"
+    if s == "min_vals":
+        return "mn"
+    if s in ("np.abs(max_vals)", "abs(max_vals)"):
+        return "mx.natAbs"
+    if s in ("np.abs(min_vals)", "abs(min_vals)"):
+        return "mn.natAbs"
+    if isinstance(e, ast.Constant) and isinstance(e.value, int):
+        return f"({e.value} : Int)"
+    raise TranslationError("untranslatable term in the sign rule: " + s)
+
+
+def _sign_cond(e):
+    if isinstance(e, ast.BinOp) and isinstance(e.op, (ast.BitOr, ast.BitAnd)):
+        op = " || " if isinstance(e.op, ast.BitOr) else " && "
+        return "(" + _sign_cond(e.left) + op + _sign_cond(e.right) + ")"
+    if isinstance(e, ast.BoolOp):
+        op = " || " if isinstance(e.op, ast.Or) else " && "
+        return "(" + op.join(_sign_cond(x) for x in e.values) + ")"
+    if isinstance(e, ast.UnaryOp) and isinstance(e.op, (ast.Invert, ast.Not)):
+        return "(!" + _sign_cond(e.operand) + ")"
+    if isinstance(e, ast.Compare) and len(e.ops) == 1:
+        l, r = _sign_term(e.left), _sign_term(e.comparators[0])
+        rel = {ast.Lt: "<", ast.LtE: "≤", ast.Gt: ">", ast.GtE: "≥"}[type(e.ops[0])]
+        return f"(decide ({l} {rel} {r}))"
+    raise TranslationError("untranslatable sign condition " + ast.unparse(e)[:80])
+
+
+@target("signRuleXarray", "Decide", ["C15", "C07", "C11"])
+def _sign_xr():
+    """idiom: concat([max, min]) with coords sign=[a, b]; abs().idxmax('sign') (first maximum wins a tie); optional
+    `.where(data.max(dim) >= 0, c)` for real data"""
+    path, qual = "utils/xarray_utils.py", "get_deterministic_sign_multiplier"
+    src, tree = load(path)
+    fn = find_func(tree, qual)
+    txt = [ast.unparse(s) for s in fn.body]
+    cat = [s for s in fn.body if isinstance(s, ast.Assign) and "xr.concat" in ast.unparse(s.value)]
+    if len(cat) != 1:
+        raise TranslationError("concat of max/min not found")
+    call = cat[0].value
+    elts = [ast.unparse(x) for x in call.args[0].elts]
+    order = ["mx" if ".max(" in x else "mn" if ".min(" in x else None for x in elts]
+    if None in order or len(order) != 2:
+        raise TranslationError("unexpected concat operands " + str(elts))
+    coords = [s for s in fn.body if isinstance(s, ast.Assign) and "assign_coords" in ast.unparse(s.value)]
+    if len(coords) != 1:
+        raise TranslationError("assign_coords(sign=[...]) not found")
+    kw = coords[0].value.keywords[0]
+    vals = [_const_int(x) for x in kw.value.elts]
+    idx = [s for s in fn.body if isinstance(s, ast.Assign) and "idxmax" in ast.unparse(s.value)]
+    if len(idx) != 1 or "np.abs(" not in ast.unparse(idx[0].value):
+        raise TranslationError("np.abs(...).idxmax not found")
+    first, second = order
+    base = f"if decide ({first}.natAbs ≥ {second}.natAbs) then {vals[0]} else {vals[1]}"
+    # optional refinement for real data
+    ref = [s for s in ast.walk(fn) if isinstance(s, ast.Assign) and ".where(" in ast.unparse(s.value) and "sign_multiplier" in ast.unparse(s.targets[0])]
+    expr = base
+    if ref:
+        w = ref[0].value
+        cond, other = w.args
+        cs = ast.unparse(cond)
+        if not (cs.startswith("data.max(dim)") and isinstance(cond, ast.Compare)):
+            raise TranslationError("unexpected where-condition " + cs)
+        rel = {ast.Lt: "<", ast.LtE: "≤", ast.Gt: ">", ast.GtE: "≥"}[type(cond.ops[0])]
+        rhs = _const_int(cond.comparators[0])
+        guard = [n for n in ast.walk(fn) if isinstance(n, ast.If) and ref[0] in n.body]
+        gtxt = ast.unparse(guard[0].test) if guard else ""
+        if guard and gtxt != "not np.iscomplexobj(data)":
+            raise TranslationError("unexpected guard on the real-data refinement: " + gtxt)
+        expr = f"if decide (mx {rel} {rhs}) then ({base}) else {_const_int(other)}"
+    return (f"/-- {header(path, qual, src, fn)}: sign multiplier for REAL data from the column maximum `mx` and minimum `mn` -/\n"
+            f"def signRuleXarray (mx mn : Int) : Int :=\n  {expr}\n")
+
+
+# ------------------------------------------------------------------------------------- guards on fitted models
+@target("transformLengthGuard", "Decide", ["C17"])
+def _len_guard():
+    path, qual = "preprocessing/preprocessor.py", "Preprocessor.transform"
+    src, tree = load(path)
+    fn = find_func(tree, qual)
+    ifs = [s for s in fn.body if isinstance(s, ast.If) and "len(X)" in ast.unparse(s.test) and "n_data" in ast.unparse(s.test) and raise_of(s.body[0])]
+    if len(ifs) != 1:
+        raise TranslationError("item-count check not found")
+    c = Cond(ints={"len_X": "lenX", "n_data": "nData"})
+    return (f"/-- {header(path, qual, src, fn)}: `if {ast.unparse(ifs[0].test)}: raise {raise_of(ifs[0].body[0])}` -/\n"
+            f"def transformLengthGuard (lenX nData : Int) : Py.Res Unit :=\n  if {c.b(ifs[0].test)} then Py.raise .{raise_of(ifs[0].body[0])} else pure ()\n")
+
+
+@target("whitenerAlphaGuard", "Decide", ["C17"])
+def _alpha_guard():
+    path, qual = "preprocessing/whitener.py", "Whitener.__init__"
+    src, tree = load(path)
+    fn = find_func(tree, qual)
+    ifs = [s for s in fn.body if isinstance(s, ast.If) and "alpha" in ast.unparse(s.test) and raise_of(s.body[0])]
+    if len(ifs) != 1:
+        raise TranslationError("alpha check not found")
+    t = ifs[0].test
+    if not (isinstance(t, ast.Compare) and len(t.ops) == 1 and ast.unparse(t.left) == "alpha"):
+        raise TranslationError("unexpected alpha test " + ast.unparse(t))
+    c = Cond(var="alpha", vkind="float")
+    lhs, rhs = c.unify(("q", "micro"), c.num(t.comparators[0]))
+    rel = {ast.Lt: "<", ast.LtE: "≤", ast.Gt: ">", ast.GtE: "≥"}[type(t.ops[0])]
+    return (f"/-- {header(path, qual, src, fn)}: `if {ast.unparse(t)}: raise {raise_of(ifs[0].body[0])}` (alpha in micro units) -/\n"
+            f"def whitenerAlphaGuard (q : Int) : Py.Res Unit :=\n  if decide ({lhs} {rel} {rhs}) then Py.raise .{raise_of(ifs[0].body[0])} else pure ()\n")
